@@ -94,3 +94,9 @@ fn make_stat(static_metadata: &StaticMetadata) -> Stat {
         ..Default::default()
     }
 }
+
+/// Verification hook (add-only): exposes the private `make_stat` to /verif's harness.
+#[cfg(fontc_verif)]
+pub fn verif_make_stat(static_metadata: &StaticMetadata) -> Stat {
+    make_stat(static_metadata)
+}
